@@ -360,8 +360,7 @@ class PiecewiseConstantBirthDeath(Distribution):
                             y,
                             torch.gather(times[..., 1:], -1, indices_y),
                         )
-                    )
-                    * (~is_rho_tip)
+                    ).masked_fill(is_rho_tip, 0.0)
                 ).sum(-1)
             else:
                 log_p += (
@@ -373,8 +372,7 @@ class PiecewiseConstantBirthDeath(Distribution):
                             y,
                             torch.gather(times[..., 1:], -1, indices_y),
                         )
-                    )
-                    * (~is_rho_tip)
+                    ).masked_fill(is_rho_tip, 0.0)
                 ).sum(-1)
 
         # last term
